@@ -190,6 +190,9 @@ func newC01Monitor(sc *Scen, semi bool, w int) *c01Monitor {
 		}
 		m.mu.Lock()
 		defer m.mu.Unlock()
+		if a := m.att[inst]; a != nil && a.frozenJudged && strings.HasPrefix(res, "error") {
+			a.posFail = true // a coordination read of the position collection (host priorities) failed
+		}
 		switch {
 		case method == "Get" && path == "active_nodes" && m.needRead[inst]:
 			var a []string
@@ -234,6 +237,11 @@ func (m *c01Monitor) afterStmt(w *world.World, c *world.StmtCtx) {
 	defer m.mu.Unlock()
 	a := m.att[inst]
 	if a != nil && a.frozenJudged && (c.Class == "replica_status" || c.Class == "gtid_executed") && (c.Errno != 0 || c.ReplyDropped || c.Delayed > 0) {
+		a.posFail = true
+	}
+	if a != nil && a.frozenJudged && c.Errno != 0 {
+		// (any call: the split is detected right after the positions were collected, so whatever fails between the lock
+		// re-check and the end of an attempt that wrote no emergency file failed before the comparison)
 		a.posFail = true
 	}
 	if a != nil && a.frozenJudged && a.roOK[c.Host] && c.Errno != 0 {
